@@ -253,6 +253,67 @@ def work(case):
     return outs
 
 
+INLINE_SRC = """module coef_mod
+  implicit none
+  integer, parameter :: wp = 8
+  real(kind=wp), dimension(0:20) :: coef
+end module coef_mod
+module m
+  use coef_mod, only: wp
+  implicit none
+contains
+  subroutine s(a, b, n)
+    integer, intent(in) :: n
+    real(kind=wp), dimension(0:n), intent(inout) :: a, b
+    integer :: i
+    do i = 1, n
+      call scalec(a(i), b(i), {arg})
+    end do
+  end subroutine s
+  subroutine scalec(x, y, j)
+    use coef_mod, only: coef
+    real(kind=wp), intent(in) :: x
+    real(kind=wp), intent(out) :: y
+    integer, intent(in) :: j
+    y = x * coef(j){extra}
+  end subroutine scalec
+end module m
+"""
+
+
+def work_inline(job):
+    """history: ACCDataTrans around a loop, then InlineTrans on the call inside it (the callee imports a module
+    array, whose symbol then lives in a table nested inside the region)"""
+    from psyclone.psyir.nodes import Routine, Call, Loop
+    from psyclone.transformations import ACCDataTrans
+    from psyclone.psyir.transformations import InlineTrans, ACCKernelsTrans
+    arg, extra, order, K, E = job
+    src = INLINE_SRC.format(arg=arg, extra=extra)
+    key = {"unit": "ACCDataTrans+InlineTrans", "template": "inline_in_region",
+           "params": {"arg": arg, "extra": extra, "order": order, "has_call": True}}
+    try:
+        base_txt = tv.write_psyir(tv.read_psyir(src))
+        p = tv.read_psyir(src)
+        r = [x for x in p.walk(Routine) if x.name == "s"][0]
+
+        def steps():
+            if order == "data_first":
+                ACCDataTrans().apply(r.children[0])
+                InlineTrans().apply(r.walk(Call)[0])
+            else:
+                InlineTrans().apply(r.walk(Call)[0])
+                ACCDataTrans().apply(r.children[0])
+        st, why = tv.safe_apply(steps)
+        if st == "refused":
+            return [{"key": key, "status": "refused", "why": why}]
+        if st == "error":
+            return [{"key": key, "status": "psyclone_error", "why": why}]
+        new_txt = tv.write_psyir(p)
+    except Exception as e:  # pylint: disable=broad-except
+        return [{"key": key, "status": "psyclone_error", "why": f"{type(e).__name__}: {e}"[:300]}]
+    return [decide(base_txt, new_txt, "s", K, E, key)]
+
+
 def main():
     tier = core.tier()
     chk = core.Check(PROP, "translation_validation",
@@ -265,6 +326,8 @@ def main():
     for c in cases:
         c["K"], c["E"] = K, E
     results = core.pmap(work, cases)
+    results += core.pmap(work_inline, [(arg, extra, order, K, E) for arg in ("i", "1", "i - 1")
+                                       for extra in ("", " + coef(0)") for order in ("data_first", "inline_first")])
     flat = []
     for r in results:
         flat.extend([r] if isinstance(r, tuple) else r)
